@@ -34,7 +34,7 @@ CHECK = dict(
          "distinct = distinct global states",
     assumptions=STATEX_ASSUME,
     budget_s={"quick": 100, "thorough": 1500},
-    shards={"quick": 8, "thorough": 8},
-    gomaxprocs=2,
+    shards={"quick": 16, "thorough": 16},
+    gomaxprocs=1,
     mem_kb=12 * 1024 * 1024,
 )
